@@ -6,7 +6,7 @@ import sys
 import warnings
 warnings.simplefilter('ignore')
 sys.path.insert(0, os.path.dirname(os.path.abspath(__file__)))
-from common import Recorder, args, replay_main
+from common import Recorder, args, replay_main, run_parallel
 from amodel import view, build, RES_MODS
 
 import peptacular as pt
@@ -103,16 +103,30 @@ def texts(tier, rnd):
         yield build(seq, pat, **rnd.choice(decor))
 
 
+def _worker(inputs):
+    r = Recorder('w', '', '')
+    for inp in inputs:
+        r.guarded('digested-peptides-faithful', inp, lambda: case(inp), fk)
+    return r.state()
+
+
 def run(rec, tier, seed):
     rnd = random.Random(seed)
+    inputs = []
     for text in texts(tier, rnd):
         for rule in (RULES if tier != 'quick' else RULES[:2] + RULES[4:6]):
             for mc in (0, 1, 3):
                 for semi in (False, True):
                     if tier == 'quick' and (mc == 3 or (semi and mc)) and rnd.random() < 0.6:
                         continue
-                    inp = dict(text=text, rule=rule, mc=mc, semi=semi)
-                    rec.guarded('digested-peptides-faithful', inp, lambda: case(inp), fk)
+                    inputs.append(dict(text=text, rule=rule, mc=mc, semi=semi))
+    if tier == 'quick':
+        for inp in inputs:
+            rec.guarded('digested-peptides-faithful', inp, lambda: case(inp), fk)
+    else:
+        # thorough: the same cases dealt round-robin to worker processes
+        for st_ in run_parallel(_worker, [inputs[i::56] for i in range(56)]):
+            rec.absorb(st_)
     # the semi-/non-enzymatic sequence generators use the same dispatcher
     for text in list(texts('quick', rnd))[:40]:
         a = parse(text)
